@@ -20,6 +20,7 @@ META = {
         "R08.2": "per-case filter: get(results, current case) for both sides; Ord::cmp(this, best); Less/Equal/Greater arm effects; winners seeded with the first candidate; mem::swap(candidates, winners) at the end of each case",
         "R08.3": "loop exits: cases exhausted | break iff remaining.is_empty() | error return",
         "R08.4": "SliceRandom::shuffle(candidates, rng) precedes first() on every non-error return",
+        "R08.6": "the configured number of test cases is the number used: Lexicase::new stores its argument in num_test_cases",
         "R08.5": "Error<T>::cmp / partial_cmp reverse exactly once (C15 R15.2)",
     },
     "trusted_base": ["rustc MIR construction", "rand 0.9 SliceRandom::shuffle is a uniform permutation driven only by the given rng", "std Vec/slice/mem::swap", "uecfacts driver + uecheck rule engine"],
@@ -98,6 +99,8 @@ def single_candidate_cond(c):
 
 
 def check(ctx):
+    from .ctors import check_table
+    check_table(ctx, "C08", "R08.6")
     fn = ctx.fn(FN)
     paths = [p for p in ctx.paths(fn) if p.end != "unreachable"]
     at = fn.at()
